@@ -1,5 +1,5 @@
 // ======================================================================================
-// fragment visit_graph_edges.rs - the Edges iterator of Graph and edges / edges_directed (properties C01 / C06):
+// fragment stable_edges.rs - the Edges iterator of StableGraph and edges / edges_directed (properties C02 / C06), adapted from visit_graph_edges.rs:
 // the edge references of the matching incidence lists of a, oriented as documented
 // (Directed: the list of the direction; Undirected: both lists, a always at the `dir` end, self-loops once)
 // ======================================================================================
@@ -16,25 +16,25 @@ fn swap_pair<T>(mut x: [T; 2]) -> (r: [T; 2])
 //@ end
 
 /// the reference the iterator yields for edge e (endpoints swapped when `swap`)
-pub open spec fn er_of<'a, E, Ix: IndexType>(edges: Seq<Edge<E, Ix>>, e: int, swap: bool) -> EdgeReference<'a, E, Ix> {
+pub open spec fn er_of<'a, E, Ix: IndexType>(edges: Seq<Edge<Option<E>, Ix>>, e: int, swap: bool) -> EdgeReference<'a, E, Ix> {
     EdgeReference {
         index: EdgeIndex(Ix::spec_new(e as usize)),
         node: if swap { [edges[e].node[1], edges[e].node[0]] } else { edges[e].node },
-        weight: &edges[e].weight,
+        weight: &edges[e].weight->Some_0,
     }
 }
-pub open spec fn ed_out<'a, E, Ix: IndexType>(edges: Seq<Edge<E, Ix>>, s: Seq<int>, swap: bool) -> Seq<EdgeReference<'a, E, Ix>> {
+pub open spec fn ed_out<'a, E, Ix: IndexType>(edges: Seq<Edge<Option<E>, Ix>>, s: Seq<int>, swap: bool) -> Seq<EdgeReference<'a, E, Ix>> {
     Seq::new(s.len(), |i: int| er_of(edges, s[i], swap))
 }
 /// the incoming list; with `skip` >= 0 the edges whose source is `skip` (self-loops, already seen) are left out
-pub open spec fn ed_in<'a, E, Ix: IndexType>(edges: Seq<Edge<E, Ix>>, s: Seq<int>, skip: int, swap: bool) -> Seq<EdgeReference<'a, E, Ix>>
+pub open spec fn ed_in<'a, E, Ix: IndexType>(edges: Seq<Edge<Option<E>, Ix>>, s: Seq<int>, skip: int, swap: bool) -> Seq<EdgeReference<'a, E, Ix>>
     decreases s.len()
 {
     if s.len() == 0 { Seq::empty() }
     else { (if skip >= 0 && edges[s[0]].node[0].0.ix() == skip { Seq::empty() } else { seq![er_of(edges, s[0], swap)] }) + ed_in(edges, s.drop_first(), skip, swap) }
 }
 
-//@ item src/graph_impl/mod.rs | - | struct Edges
+//@ item src/graph_impl/stable_graph/mod.rs | - | struct Edges
 /// Iterator over the edges of from or to a node
 pub struct Edges<'a, E: 'a, Ty, Ix: 'a = DefaultIx>
 where
@@ -43,7 +43,7 @@ where
 {
     /// starting node to skip over
     skip_start: NodeIndex<Ix>,
-    edges: &'a [Edge<E, Ix>],
+    edges: &'a [Edge<Option<E>, Ix>],
 
     /// Next edge to visit.
     next: [EdgeIndex<Ix>; 2],
@@ -56,7 +56,7 @@ where
 //@ end
 
 impl<'a, E, Ty: EdgeType, Ix: IndexType> Edges<'a, E, Ty, Ix> {
-    pub closed spec fn ev(&self) -> Seq<Edge<E, Ix>> { self.edges@ }
+    pub closed spec fn ev(&self) -> Seq<Edge<Option<E>, Ix>> { self.edges@ }
     pub closed spec fn rest0(&self) -> Seq<int> { chain_of(self.edges@, self.next[0], 0) }
     pub closed spec fn rest1(&self) -> Seq<int> { chain_of(self.edges@, self.next[1], 1) }
     pub closed spec fn rem(&self) -> Seq<EdgeReference<'a, E, Ix>> {
@@ -64,9 +64,9 @@ impl<'a, E, Ty: EdgeType, Ix: IndexType> Edges<'a, E, Ty, Ix> {
         (if !directed || k == 0 { ed_out(self.edges@, self.rest0(), !directed && k == 1) } else { Seq::empty() })
         + (if !directed || k == 1 { ed_in(self.edges@, self.rest1(), if directed { -1 } else { self.skip_start.0.ix() as int }, !directed && k == 0) } else { Seq::empty() })
     }
-    /// TYPE INVARIANT: both pointers head chains (established by Graph::edges_directed from wf())
+    /// TYPE INVARIANT: both pointers head chains of live edge slots (established by StableGraph::edges_directed from wf())
     #[verifier::type_invariant]
-    closed spec fn tinv(self) -> bool { has_chain(self.edges@, self.next[0], 0) && has_chain(self.edges@, self.next[1], 1) }
+    closed spec fn tinv(self) -> bool { nb_inv(self.edges@, self.next[0], self.next[1]) }
 }
 impl<'a, E, Ty: EdgeType, Ix: IndexType> vstd::std_specs::iter::IteratorSpecImpl for Edges<'a, E, Ty, Ix> {
     closed spec fn obeys_prophetic_iter_laws(&self) -> bool { true }
@@ -76,7 +76,7 @@ impl<'a, E, Ty: EdgeType, Ix: IndexType> vstd::std_specs::iter::IteratorSpecImpl
     closed spec fn peek(&self, i: int) -> Option<EdgeReference<'a, E, Ix>> { None }
 }
 
-//@ item src/graph_impl/mod.rs | - | impl<'a, E, Ty, Ix> Iterator for Edges<'a, E, Ty, Ix> where Ty: EdgeType, Ix: IndexType
+//@ item src/graph_impl/stable_graph/mod.rs | - | impl<'a, E, Ty, Ix> Iterator for Edges<'a, E, Ty, Ix> where Ty: EdgeType, Ix: IndexType
 impl<'a, E, Ty, Ix> Iterator for Edges<'a, E, Ty, Ix>
 where
     Ty: EdgeType,
@@ -105,7 +105,17 @@ where
 
         if iterate_over.unwrap_or(Outgoing) == Outgoing {
             let i = self.next[0].index();
-            if let Some(Edge { node, weight, next }) = self.edges.get(i) {
+            /*+*/proof { if (i as int) < self.edges@.len() {
+                let r0 = self.rest0(); assert(r0[0] == i); assert(elive(self.edges@, r0[0]));
+                let t0 = chain_of(self.edges@, self.edges@[i as int].next[0], 0);
+                assert(r0 == seq![i as int] + t0);
+                assert(all_live(self.edges@, t0)) by { assert forall|q: int| 0 <= q < t0.len() implies elive(self.edges@, #[trigger] t0[q]) by { assert(r0[q + 1] == t0[q]); } } } }/*-*/
+            if let Some(Edge {
+                node,
+                weight: Some(weight),
+                next,
+            }) = self.edges.get(i)
+            {
                 self.next[0] = next[0];
                 /*+*/proof {
                     let r0 = old(self).rest0();
@@ -139,7 +149,12 @@ where
                 decreases self.rest1().len()/*-*/
             {
                 /*+*/let ghost before = *self; let ghost e1 = self.next[1].0.ix() as int;
-                proof { lemma_chain_step(self.edges@, self.next[1], 1); Ix::eq_law(); }/*-*/
+                proof { lemma_chain_step(self.edges@, self.next[1], 1); Ix::eq_law();
+                    let r1 = self.rest1(); assert(r1[0] == e1); assert(elive(self.edges@, r1[0]));
+                    let t1 = chain_of(self.edges@, self.edges@[e1].next[1], 1);
+                    assert(r1 == seq![e1] + t1);
+                    assert(all_live(self.edges@, t1)) by { assert forall|q: int| 0 <= q < t1.len() implies elive(self.edges@, #[trigger] t1[q]) by { assert(r1[q + 1] == t1[q]); } } }/*-*/
+                debug_assert!(weight.is_some());
                 let edge_index = self.next[1];
                 self.next[1] = next[1];
                 /*+*/proof {
@@ -171,7 +186,7 @@ where
                     } else {
                         *node
                     },
-                    weight,
+                    weight: weight.as_ref().unwrap(),
                 });
             }
         }
@@ -186,58 +201,61 @@ where
 //@ end
 pub open spec fn r1_of<E, Ix: IndexType>(es: Seq<Edge<E, Ix>>, h: EdgeIndex<Ix>) -> Seq<int> { chain_of(es, h, 1) }
 
-impl<N, E, Ty, Ix> Graph<N, E, Ty, Ix>
+impl<N, E, Ty, Ix> StableGraph<N, E, Ty, Ix>
 where
     Ty: EdgeType,
     Ix: IndexType,
 {
-    /// what `edges_directed(a, dir)` yields, in iteration order:
+    /// what `edges_directed(a, dir)` yields, in iteration order (nothing for a vacant or out-of-range a):
     /// Directed: the list of the direction as stored.  Undirected: the outgoing list, then the incoming list without
     /// self-loops, every edge oriented so that a is its source (dir = Outgoing) resp. its target (dir = Incoming).
     pub open spec fn edges_seq<'a>(&self, a: int, k: int) -> Seq<EdgeReference<'a, E, Ix>> {
-        let es = self.edges@;
-        if !(0 <= a < self.n()) { Seq::empty() }
-        else if Ty::spec_is_directed() { if k == 0 { ed_out(es, self.outs()[a], false) } else { ed_in(es, self.inns()[a], -1, false) } }
-        else { ed_out(es, self.outs()[a], k == 1) + ed_in(es, self.inns()[a], a, k == 0) }
+        let es = self.es();
+        if !nlive(self.ns(), a) { Seq::empty() }
+        else if Ty::spec_is_directed() { if k == 0 { ed_out(es, self.outs(-1)[a], false) } else { ed_in(es, self.inns(-1)[a], -1, false) } }
+        else { ed_out(es, self.outs(-1)[a], k == 1) + ed_in(es, self.inns(-1)[a], a, k == 0) }
     }
 
-//@ item src/graph_impl/mod.rs | impl<N, E, Ty, Ix> Graph<N, E, Ty, Ix> where Ty: EdgeType, Ix: IndexType | fn edges
+//@ item src/graph_impl/stable_graph/mod.rs | impl<N, E, Ty, Ix> StableGraph<N, E, Ty, Ix> where Ty: EdgeType, Ix: IndexType | fn edges
     pub fn edges(&self, a: NodeIndex<Ix>) -> (r: Edges<E, Ty, Ix>)
         /*+*/requires self.wf()
-        ensures r.obeys_prophetic_iter_laws(), r.decrease() is Some, r.remaining() == self.edges_seq(a.i(), 0)/*-*/   // [edges_is_outgoing_view]
+        ensures r.obeys_prophetic_iter_laws(), r.decrease() is Some, r.remaining() == self.edges_seq(a.i(), 0)/*-*/   // [stable_edges_is_outgoing_view]
     {
         self.edges_directed(a, Outgoing)
     }
 //@ end
 
-//@ item src/graph_impl/mod.rs | impl<N, E, Ty, Ix> Graph<N, E, Ty, Ix> where Ty: EdgeType, Ix: IndexType | fn edges_directed
+//@ item src/graph_impl/stable_graph/mod.rs | impl<N, E, Ty, Ix> StableGraph<N, E, Ty, Ix> where Ty: EdgeType, Ix: IndexType | fn edges_directed
     pub fn edges_directed(&self, a: NodeIndex<Ix>, dir: Direction) -> (r: Edges<E, Ty, Ix>)
         /*+*/requires self.wf()
-        ensures r.obeys_prophetic_iter_laws(), r.decrease() is Some, r.remaining() == self.edges_seq(a.i(), dir.k())/*-*/   // [edges_directed_is_matching_view]
+        ensures r.obeys_prophetic_iter_laws(), r.decrease() is Some, r.remaining() == self.edges_seq(a.i(), dir.k())/*-*/   // [stable_edges_directed_is_matching_view]
     {
         /*+*/proof {
-            let es = self.edges@; let ai = a.i();
-            assert forall|h: EdgeIndex<Ix>, kk: int| h.0.ix() == end_ix::<Ix>() && 0 <= kk < 2 implies #[trigger] has_chain(es, h, kk) by { lemma_chain_step(es, h, kk); }
-            if ai < self.n() {
-                let o = self.outs()[ai]; let i_ = self.inns()[ai];
-                lemma_slist_is_chain(es, self.nodes@[ai].next[0], 0, o); lemma_chain_of(es, self.nodes@[ai].next[0], 0, o);
-                lemma_slist_is_chain(es, self.nodes@[ai].next[1], 1, i_); lemma_chain_of(es, self.nodes@[ai].next[1], 1, i_);
+            let es = self.es(); let ai = a.i();
+            if nlive(self.ns(), ai) {
+                let o = self.outs(-1)[ai]; let i_ = self.inns(-1)[ai];
+                lemma_slist_is_chain(es, self.ns()[ai].next[0], 0, o); lemma_chain_of(es, self.ns()[ai].next[0], 0, o);
+                lemma_slist_is_chain(es, self.ns()[ai].next[1], 1, i_); lemma_chain_of(es, self.ns()[ai].next[1], 1, i_);
+                assert(all_live(es, o)) by { assert forall|j: int| 0 <= j < o.len() implies elive(es, #[trigger] o[j]) by { assert(elive(es, self.outs(-1)[ai][j])); } }
+                assert(all_live(es, i_)) by { assert forall|j: int| 0 <= j < i_.len() implies elive(es, #[trigger] i_[j]) by { assert(elive(es, self.inns(-1)[ai][j])); } }
+                assert(nb_inv(es, self.ns()[ai].next[0], self.ns()[ai].next[1]));
             }
+            assert forall|h0: EdgeIndex<Ix>, h1: EdgeIndex<Ix>| h0.0.ix() == end_ix::<Ix>() && h1.0.ix() == end_ix::<Ix>() implies #[trigger] nb_inv(es, h0, h1) by { lemma_chain_step(es, h0, 0); lemma_chain_step(es, h1, 1); }
         }
         let r = {/*-*/ Edges {
             skip_start: a,
-            edges: &self.edges,
+            edges: &self.g.edges,
             direction: dir,
-            next: match self.nodes.get(a.index()) {
+            next: match self.get_node(a) {
                 None => [EdgeIndex::end(), EdgeIndex::end()],
                 Some(n) => n.next,
             },
             ty: PhantomData,
         } /*+*/};
         proof {
-            let es = self.edges@; let ai = a.i(); let k = dir.k(); let directed = Ty::spec_is_directed();
-            if ai < self.n() {
-                let o = self.outs()[ai]; let i_ = self.inns()[ai];
+            let es = self.es(); let ai = a.i(); let k = dir.k(); let directed = Ty::spec_is_directed();
+            if nlive(self.ns(), ai) {
+                let o = self.outs(-1)[ai]; let i_ = self.inns(-1)[ai];
                 assert(r.rest0() == o && r.rest1() == i_);
                 assert(r.rem() =~= self.edges_seq(ai, k));
             } else {
